@@ -253,6 +253,7 @@ pub enum Op {
     RemoveFile(usize),
     AddToFile(usize, usize),
     AddToForeignFile(usize),
+    RemoveFromForeignFile(usize),
     RemoveFromFile(usize, usize),
     SetFilename(usize, &'static str),
     SetVersion(usize, bool),
@@ -305,6 +306,7 @@ pub fn op_kind(op: &Op) -> &'static str {
         Op::RemoveFile(..) => "remove_file",
         Op::AddToFile(..) => "add_to_file",
         Op::AddToForeignFile(..) => "add_to_file(foreign)",
+        Op::RemoveFromForeignFile(..) => "remove_from_file(foreign)",
         Op::RemoveFromFile(..) => "remove_from_file",
         Op::SetFilename(..) => "set_filename",
         Op::SetVersion(..) => "set_version",
@@ -331,7 +333,8 @@ pub fn load_docs() -> Vec<(&'static str, String)> {
         ("disjoint", format!("{}<AR-PACKAGES>{}</AR-PACKAGES></AUTOSAR>", h(V50), pk("z9", "<ELEMENTS><CAN-CLUSTER><SHORT-NAME>c</SHORT-NAME></CAN-CLUSTER></ELEMENTS>"))),
         ("overlap-compatible", format!("{}<AR-PACKAGES>{}</AR-PACKAGES></AUTOSAR>", h(V50), pk("a", "<ELEMENTS><CAN-CLUSTER><SHORT-NAME>c</SHORT-NAME></CAN-CLUSTER><CAN-CLUSTER><SHORT-NAME>c9</SHORT-NAME></CAN-CLUSTER></ELEMENTS>"))),
         ("path-conflict", format!("{}<AR-PACKAGES>{}</AR-PACKAGES></AUTOSAR>", h(V50), pk("a", "<ELEMENTS><SYSTEM><SHORT-NAME>q1</SHORT-NAME></SYSTEM><SYSTEM><SHORT-NAME>c</SHORT-NAME></SYSTEM></ELEMENTS>"))),
-        ("non-splittable-divergence", format!("{}<AR-PACKAGES>{}</AR-PACKAGES></AUTOSAR>", h(V50), pk("a", "<ELEMENTS><SYSTEM><SHORT-NAME>s</SHORT-NAME><SYSTEM-VERSION>9</SYSTEM-VERSION><PNC-VECTOR-LENGTH>4</PNC-VECTOR-LENGTH></SYSTEM></ELEMENTS>"))),
+        ("value-divergence", format!("{}<AR-PACKAGES>{}</AR-PACKAGES></AUTOSAR>", h(V50), pk("a", "<ELEMENTS><SYSTEM><SHORT-NAME>s</SHORT-NAME><SYSTEM-VERSION>1.0.0</SYSTEM-VERSION><PNC-VECTOR-LENGTH>4</PNC-VECTOR-LENGTH></SYSTEM></ELEMENTS>"))),
+        ("lexer-error", format!("{}<AR-PACKAGES>{}<!-- unterminated comment", h(V50), pk("z2", "<ELEMENTS><CAN-CLUSTER><SHORT-NAME>c</SHORT-NAME></CAN-CLUSTER></ELEMENTS>"))),
         ("syntax-error", format!("{}<AR-PACKAGES>{}</AR-PACKAGES>", h(V50), pk("z8", "<ELEMENTS><CAN-CLUSTER><SHORT-NAME>c</SHORT-NAME></CAN-CLUSTER>"))),
         ("lenient-only", format!("{}<AR-PACKAGES>{}</AR-PACKAGES></AUTOSAR>", h(V50), pk("z7", "<ELEMENTS><CAN-CLUSTER UNKNOWN=\"1\"><SHORT-NAME>c</SHORT-NAME></CAN-CLUSTER></ELEMENTS>"))),
         ("other-version", format!("{}<AR-PACKAGES>{}</AR-PACKAGES></AUTOSAR>", h(V49), pk("z6", "<ELEMENTS/>"))),
@@ -551,6 +554,9 @@ pub fn ops_for(w: &World, profile: Profile) -> Vec<Op> {
             if matches!(e.element_name(), ElementName::ArPackage | ElementName::L2 | ElementName::System) {
                 ops.push(Op::SetAttrStr(i, "UUID", "u1"));
                 ops.push(Op::SetAttrStr(i, "DEST", "CAN-CLUSTER"));
+                ops.push(Op::SetAttrStr(i, "DEST", "NO-SUCH-ITEM"));
+                ops.push(Op::SetAttrStr(i, "L", "??"));
+                ops.push(Op::SetAttrStr(i, "UUID", ""));
                 ops.push(Op::RemoveAttr(i, "UUID"));
                 ops.push(Op::SetAttr(i, "L", "EN"));
                 ops.push(Op::RemoveAttr(i, "L"));
@@ -577,6 +583,7 @@ pub fn ops_for(w: &World, profile: Profile) -> Vec<Op> {
             }
             if all || i % 3 == 0 {
                 ops.push(Op::AddToForeignFile(i));
+                ops.push(Op::RemoveFromForeignFile(i));
             }
         }
     }
@@ -597,9 +604,9 @@ pub fn ops_for(w: &World, profile: Profile) -> Vec<Op> {
         }
     }
     if fileops || refs {
-        for (d, _) in load_docs().iter().enumerate() {
+        for (d, (doc_name, _)) in load_docs().iter().enumerate() {
             ops.push(Op::Load(d, true));
-            if all || d == 5 {
+            if all || *doc_name == "lenient-only" {
                 ops.push(Op::Load(d, false));
             }
         }
@@ -689,6 +696,7 @@ pub fn apply(w: &mut World, op: &Op) -> Outcome {
             }
             Op::AddToFile(i, k) => get(*i)?.add_to_file(files.get(*k)?).map(|_| None),
             Op::AddToForeignFile(i) => get(*i)?.add_to_file(&w.other.files().next()?).map(|_| None),
+            Op::RemoveFromForeignFile(i) => get(*i)?.remove_from_file(&w.other.files().next()?).map(|_| None),
             Op::RemoveFromFile(i, k) => get(*i)?.remove_from_file(files.get(*k)?).map(|_| None),
             Op::SetFilename(k, n) => files.get(*k)?.set_filename(n).map(|_| None),
             Op::SetVersion(k, latest) => files.get(*k)?.set_version(if *latest { V50 } else { V49 }).map(|_| None),
